@@ -25,7 +25,10 @@ RULE = ('Real threads under a cooperative scheduler that owns the schedule: '
         'eio.send / send_packet and at disconnect-handler entry. Pairs are '
         'enumerated exhaustively by DFS over the choice tree; triples, and '
         'pairs at a finer granularity (yield points also at the calls the '
-        'manager makes to itself), are explored with Hypothesis-generated '
+        'manager makes to itself, and at the real engine.io socket\'s '
+        'send(), which raises for a connection closed meanwhile), and pairs '
+        'with a scheduling point at every access to the shared table of '
+        'pending disconnects, are explored with Hypothesis-generated '
         'choice lists. Oracle: the '
         'disconnect handler ran exactly once for the victim, no exception '
         'escaped an actor or was contained by engine.io, the victim left no '
@@ -34,8 +37,9 @@ RULE = ('Real threads under a cooperative scheduler that owns the schedule: '
         'with at least one switch between one actor\'s connected-check and '
         'its mark.')
 ASSUMPTIONS = [
-    'pre-emption at the granularity of instrumented operations, not of '
-    'bytecodes',
+    'pre-emption at the granularity of instrumented operations (manager '
+    'methods, transport sends, accesses to the table of pending '
+    'disconnects), not of bytecodes',
     'the threading async mode (no eventlet/gevent)',
 ]
 BUDGET = {'quick': 4000, 'thorough': 80000}
@@ -96,7 +100,7 @@ def enumerate_sharded(tier, shard, nshards):
 
 def _key(case):
     return (tuple(case['actors']), case['two_ns'], case['bystander'],
-            bool(case.get('fine')), tuple(case['choices']))
+            case.get('fine'), tuple(case['choices']))
 
 
 def strategy(tier):
@@ -112,7 +116,75 @@ def strategy(tier):
         'choices': st.lists(st.sampled_from([0, 0, 0, 1, 1, 2]),
                             max_size=60)}).filter(
         lambda c: c['two_ns'] or 'odisc' not in c['actors'])
-    return st.one_of(triples, fine, fine)
+    # pairs at the granularity of the accesses to the shared table of
+    # pending disconnects (inside one manager method)
+    table = st.fixed_dictionaries({
+        'actors': st.lists(st.sampled_from(ACTORS), min_size=2, max_size=2),
+        'two_ns': st.booleans(), 'bystander': st.booleans(),
+        'fine': st.just('dict'),
+        'choices': st.lists(st.sampled_from([0, 0, 0, 1, 1, 2]),
+                            max_size=80)}).filter(
+        lambda c: c['two_ns'] or 'odisc' not in c['actors'])
+    return st.one_of(triples, fine, fine, table)
+
+
+def _yielding_pending_table(sched, m):
+    """Every access to the table of pending disconnects is a scheduling
+    point (the table is shared by all threads and, per namespace, by all
+    clients), except while the accessing thread holds the manager's lock."""
+    import threading
+
+    class OwnLock:
+        def __init__(self):
+            self._l = threading.Lock()
+            self.owner = None
+
+        def acquire(self, *a, **k):
+            r = self._l.acquire(*a, **k)
+            if r:
+                self.owner = threading.get_ident()
+            return r
+
+        def release(self):
+            self.owner = None
+            self._l.release()
+
+        def __enter__(self):
+            self.acquire()
+            return self
+
+        def __exit__(self, *a):
+            self.release()
+
+    lock = OwnLock()
+
+    class Table(dict):
+        def _y(self, what):
+            if lock.owner != threading.get_ident():
+                sched.yield_point('pending.' + what)
+
+        def __contains__(self, k):
+            self._y('in')
+            return dict.__contains__(self, k)
+
+        def __getitem__(self, k):
+            self._y('get')
+            return dict.__getitem__(self, k)
+
+        def __setitem__(self, k, v):
+            self._y('set')
+            dict.__setitem__(self, k, v)
+
+        def __delitem__(self, k):
+            self._y('del')
+            dict.__delitem__(self, k)
+
+        def get(self, k, d=None):
+            self._y('get')
+            return dict.get(self, k, d)
+    if hasattr(m, '_disconnect_lock'):
+        m._disconnect_lock = lock
+    m.pending_disconnect = Table(m.pending_disconnect)
 
 
 def _execute(case):
@@ -158,9 +230,16 @@ def _execute(case):
     # -> basic_leave_room ...) are yield points; too many schedules to
     # enumerate, so this granularity is only sampled
     coop.wrap_yield(sched, sio.manager, MGR_METHODS, 'mgr.', tag=ns_tag,
-                    nested=bool(case.get('fine')),
+                    nested=case.get('fine') is True,
                     atomic=('pre_disconnect',))
+    if case.get('fine') == 'dict':
+        _yielding_pending_table(sched, sio.manager)
     coop.wrap_yield(sched, sio.eio, ['send', 'send_packet'], 'eio.')
+    if case.get('fine'):
+        # ... and the transport's own send, which engine.io reaches after it
+        # has looked the connection up: it raises if the connection was
+        # closed in between
+        coop.wrap_yield(sched, sock, ['send'], 'sock.')
     # (send -> send_packet is one access: only the outermost call yields)
     from engineio import packet as ep
 
